@@ -271,9 +271,38 @@ def h_ata(ctx, cmd, with_data):
         ctx.check("T_DIR=1: empty data-out buffer", blen(c.dataout) == 0)
 
 
+class _Only:
+    """harness-context proxy that keeps only the checks whose label matches (everything else the wrapped harness
+    states belongs to another property and is decided there)"""
+    def __init__(self, ctx, keep):
+        self.__dict__["_ctx"], self.__dict__["_keep"] = ctx, keep
+
+    def __getattr__(self, name):
+        return getattr(self._ctx, name)
+
+    def __setattr__(self, name, value):
+        setattr(self._ctx, name, value)
+
+    def check(self, label, cond, *a, **k):
+        if any(x in label for x in self._keep):
+            return self._ctx.check(label, cond, *a, **k)
+        return True
+
+
+def h_plist(ctx, func, params):
+    """parameter lists built from caller dictionaries (PERSISTENT RESERVE OUT with TransportIDs, MODE SELECT,
+    EXTENDED COPY): the CDB's PARAMETER LIST LENGTH announces exactly the data-out buffer, which has the length the
+    standard's layout gives that list (the layout itself is C05)"""
+    from . import c05
+    getattr(c05, func)(_Only(ctx, ("CDB parameter list length", "parameter list has the standard's length")), **params)
+
+
 def obligations(tier):
     from symx.harness import Ob
+    from . import c05
     obs = []
+    for o in c05.obligations(tier):
+        obs.append(Ob("plist/" + o.name, MOD, "h_plist", {"func": o.func, "params": o.params}))
     for cmd, spec in L.CDB.items():
         if spec["data"][0] == "ata":
             for wd in (False, True):
@@ -298,7 +327,7 @@ INFO = {
     "functions": ["SCSICommand.__init__ (buffer allocation)", "__init__ of every scsi_cdb_*.py (size computation)",
                   "ATAPassThrough12/16.__init__ size rules", "SCSIDevice.execute", "ISCSIDevice.execute"],
     "bounds": {"sizes": "block size < 2^32, lengths at full field width (products compared as terms)",
-               "parameter lists": "fixed small lists (layout is C05)", "caller data": "6-byte / 3-byte buffers"},
+               "parameter lists": "the dictionaries of the C05 obligations (length agreement only; layout is C05)", "caller data": "6-byte / 3-byte buffers"},
     "outside": ["T_LENGTH=1 with ATA PASS-THROUGH(16) and EXTEND=0 (whether FEATURES(15:8) counts is not modelled: the "
                 "whole FEATURES argument is taken, as the library does)", "out-of-range sizes"],
     "assumptions": ["stub bindings of stubs/env.py (contracts listed there)", "spec/cdb_layouts.py"],
